@@ -14,7 +14,9 @@ PROP = "C08"
 
 def run(c):
     d = L.build_pipeline(c.tier, c.seed)
-    L.evaluate(c, PROP, d)
+    # "the log payloads alone determine the ledger state": replaying the exported logs into a fresh ledger (the
+    # export/import histories of the pipeline) must reproduce the source - the same predicate as C11's
+    L.evaluate(c, PROP, d, extra_preds=("Step_C11_ImportFaithful",))
     pred, mut = M.CONTROLS[PROP]
     c.set("negative_control", L.negative_control(d, c.seed, pred, mut))
 
